@@ -404,8 +404,9 @@ fn permutations(n: usize) -> Vec<Vec<usize>> {
 enum Ev {
     /// member announces itself (update_local with its own current incarnation)
     Announce(u8),
-    /// replica r suspects member m at the incarnation r currently holds for m
-    Suspect(u8, u8),
+    /// replica r suspects member m at the incarnation r currently holds for m plus `ahead` (a
+    /// suspicion relayed by a reporter that is ahead of r, or simply wrong, names a higher one)
+    Suspect(u8, u8, #[serde(default)] u8),
     Fail(u8, u8),
     MarkHealthy(u8, u8),
     /// member m bumps its incarnation and refutes locally
@@ -426,7 +427,7 @@ fn ev_strategy(_t: Tier) -> impl Strategy<Value = EvCase> {
     (3u8..=4).prop_flat_map(|n| {
         let ev = prop_oneof![
             2 => (0..n).prop_map(Ev::Announce),
-            3 => (0..n, 0..n).prop_map(|(a, b)| Ev::Suspect(a, b)),
+            3 => (0..n, 0..n, prop_oneof![3 => Just(0u8), 1 => 1u8..4]).prop_map(|(a, b, d)| Ev::Suspect(a, b, d)),
             3 => (0..n, 0..n).prop_map(|(a, b)| Ev::Fail(a, b)),
             2 => (0..n, 0..n).prop_map(|(a, b)| Ev::MarkHealthy(a, b)),
             2 => (0..n).prop_map(Ev::Refute),
@@ -456,10 +457,13 @@ fn ev_check(c: &EvCase, ctx: &mut CaseCtx) -> Result<(), Fail> {
                 announced[m] = Some(announced[m].unwrap_or(0).max(own_inc[m]));
                 kinds.insert("announce");
             },
-            Ev::Suspect(r, m) => {
+            Ev::Suspect(r, m, ahead) => {
                 let (r, m) = (*r as usize % n, *m as usize % n);
                 if let Some(inc) = reps[r].get(&member_id(m as u8)).map(|s| s.incarnation) {
-                    if reps[r].suspect(&member_id(m as u8), inc) {
+                    if *ahead > 0 {
+                        kinds.insert("suspect-naming-a-higher-incarnation");
+                    }
+                    if reps[r].suspect(&member_id(m as u8), inc + u64::from(*ahead)) {
                         kinds.insert("suspect");
                         local_after_merge |= merged[r];
                     }
